@@ -138,11 +138,11 @@ def observe(tag, H, g, is_sc, rng, plt):
               # the documented per-ID form with colour names / RGB tuples
               dict(node_fc={n: ("red" if k % 2 else "tab:blue") for k, n in enumerate(H.nodes)}),
               dict(node_fc={n: (0.1, 0.2, 0.3) for n in H.nodes}, node_ec={n: "black" for n in H.nodes})]
-    mos = [None, 1, 2, 3]
+    mos = [None, 1, 2, 3, 0]
     for si, style in enumerate(styles):
         mo = mos[si % len(mos)]
         if is_sc:
-            for mo2 in (1, 2, 3) if si == 0 else ():
+            for mo2 in (0, 1, 2, 3) if si == 0 else ():
                 def ds2(mo2=mo2):
                     ax, (dy, ed) = xgi.draw_simplices(H, pos=pos, max_order=mo2)
                     _, lines, polys = scene(None, dy, ed)
@@ -296,7 +296,7 @@ def run(tier, seed_):
         rule="inputs = TLC-enumerated hypergraphs (isolated nodes, singletons, multi-edges) and the simplicial complexes "
              "they generate, under 3 label families; every layout function (+ options), edge_positions_from_barycenters "
              "with integer positions, draw / draw_nodes / draw_hyperedges / draw_simplices with scalar, per-id and "
-             "stat-valued style arguments and max_order in {None,1,2,3}; distinct = (function, class, #nodes, sorted "
+             "stat-valued style arguments and max_order in {None,0,1,2,3}; distinct = (function, class, #nodes, sorted "
              "edge sizes)",
         samples=samples, selftest=selftest,
         class_of=lambda r: (r["fn"], r["sc"], len(r["st"]["nodes"]), tuple(sorted(len(m) for m in r["st"]["e2n"]))),
